@@ -35,7 +35,7 @@ Record TInv (te : tenv) (t : transport) (consumed : bytes) : Prop := mkTInv {
            (tr_recovered t = true -> tr_loader t = a_incoming (tr_auth t) ++ after);
   TI_auth : tr_authenticated t = true ->
             a_state (a_core (tr_auth t)) = Authenticated /\ a_outgoing (tr_auth t) = [] /\
-            admit te (get_identity (tr_auth t)) = true;
+            admission te (get_identity (tr_auth t)) = true;
   TI_unauth : tr_authenticated t = false -> tr_loader t = [] /\ tr_recovered t = false
 }.
 
@@ -62,7 +62,7 @@ Proof.
   destruct (work_result a) eqn:Er;
     try (constructor; cbn [tr_auth tr_authenticated tr_disconnected tr_loader tr_recovered];
          [exact R | discriminate | intros _; split; assumption]).
-  destruct (admit te (get_identity a)) eqn:Ead.
+  destruct (admission te (get_identity a)) eqn:Ead.
   - constructor; cbn [tr_auth tr_authenticated tr_disconnected tr_loader tr_recovered].
     + exact R.
     + intros _. destruct (work_result_authenticated a Er). auto.
@@ -102,7 +102,7 @@ Proof.
   destruct (work_result a') eqn:Er;
     try (constructor; cbn [tr_auth tr_authenticated tr_disconnected tr_loader tr_recovered];
          [exact R | discriminate | intros _; split; assumption]).
-  destruct (admit te (get_identity a')) eqn:Ead.
+  destruct (admission te (get_identity a')) eqn:Ead.
   - constructor; cbn [tr_auth tr_authenticated tr_disconnected tr_loader tr_recovered].
     + exact R.
     + intros _. destruct (work_result_authenticated a' Er). auto.
@@ -133,7 +133,7 @@ Proof.
   destruct (work_result a') eqn:Er;
     try (constructor; cbn [tr_auth tr_authenticated tr_disconnected tr_loader tr_recovered];
          [exact R | discriminate | intros _; split; assumption]).
-  destruct (admit te (get_identity a')) eqn:Ead.
+  destruct (admission te (get_identity a')) eqn:Ead.
   - constructor; cbn [tr_auth tr_authenticated tr_disconnected tr_loader tr_recovered].
     + exact R.
     + intros _. destruct (work_result_authenticated a' Er). auto.
